@@ -91,14 +91,14 @@ Proof.
 Qed.
 Print Assumptions C09_listener_limits.
 
-(* With compression ON (what the listeners use), for messages none of whose names has more than 10 labels: the
+(* With compression ON (what the listeners use), for EVERY well-formed message: the
    size-limited encoding decodes cleanly, whatever follows it — the header counts are the records present —, to a
    message whose header is the original with TC := TC || (something omitted), whose questions, answers and
    authorities are order-preserving sublists of the original ones (records compared by view: everything except the
    stored RDLENGTH), and whose additionals are a sublist of the non-OPT additionals followed by the OPT record.
    (The size bound, totality and "fits untouched" above already hold with compression.) *)
 Theorem C09_compressed_wellformed : forall (size : nat) (m : msg) (trailing : list N),
-  wf_msg m -> msg_depth_ok m -> 0 < size ->
+  wf_msg m -> 0 < size ->
   exists out m' kq ka kn kr,
     pack_msg (msg_len m) true size m = Ok out /\ unpack_msg (out ++ trailing) = Ok m' /\
     sublist kq (m_qs m) /\ sublist ka (m_an m) /\ sublist kn (m_ns m) /\ sublist kr (snd (pop_opt (m_ar m))) /\
@@ -107,7 +107,7 @@ Theorem C09_compressed_wellformed : forall (size : nat) (m : msg) (trailing : li
     m_hdr m' = set_tc (m_hdr m) (h_tc (m_hdr m) ||
                  negb ((length kq =? length (m_qs m)) && (length ka =? length (m_an m)) &&
                        (length kn =? length (m_ns m)) && (length kr =? length (snd (pop_opt (m_ar m)))))).
-Proof. exact compressed_truncated. Qed.
+Proof. exact compressed_truncated_all. Qed.
 Print Assumptions C09_compressed_wellformed.
 
 (* non-vacuity: 60 A records at limit 512 are truncated to 28 with TC set, 11-octet OPT retained *)
